@@ -22,6 +22,27 @@ claim('C15', 'proof',
       'DER/BER universe only where Props/C15.v says so.',
       'Coq proof over hand-written model + differential correspondence', 'DESIGN.md section 6 C15')
 
+claim('C05', 'proof',
+      'Coq theorems about the executable UPER implementation model (Per/UperImpl.v, the whole type-directed codec incl. '
+      'extension additions, groups, CHOICE additions, 16K fragmentation): the X.691 n-bit field and length determinant '
+      'round-trip for every value and continuation (Props/C05.v), with the model tied to per.py/uper.py on every run by '
+      'comparing complete encodings and decodings of generated (module, type, value) cases bit for bit.',
+      'Hand-written model, correspondence is sampled (generator histogram in the evidence). Whole-type refinement to a '
+      'separate X.691 specification model is OPEN; aligned PER is covered by property tests only (no model yet). Known '
+      'deviations of the code from X.691 are recorded in known_findings/C05.json and the generator stays out of them.',
+      'Coq proof over hand-written model + differential correspondence', 'DESIGN.md section 6 C05')
+
+claim('C18', 'proof',
+      'machine-checked: (a) no function reachable at encode/decode/check time writes to a compiled object, module/class '
+      'state or a caller\'s value - finite statement over the write-set table regenerated from /repo\'s ast on every run; '
+      '(b) for every history and every interleaving of threads whose steps respect that table, shared state is unchanged '
+      'and each call returns what it returns alone on a fresh copy (unbounded, induction over step lists / merges)',
+      'the table\'s completeness is the translator\'s (fail-closed, trusted) and is validated at run time by a structural '
+      'fingerprint of all shared state after every call; thread schedules are explored (2-8 threads, randomised switch '
+      'interval), not enumerated; one known finding (structured DEFAULT aliased into decode results, only through compile_dict)',
+      'Coq proof over an abstract shared/call-local heap + regenerated write-set table (Python-ast abstract interpretation) '
+      '+ differential histories on /repo', 'DESIGN.md section 6 C18')
+
 ALL = ['C%02d' % i for i in range(1, 21)]
 for p in ALL:
     if p not in CHECKS:
@@ -30,7 +51,7 @@ for p in ALL:
 
 doc = {
     'version': 1,
-    'setup_cmd': 'bash -c "cd coq && ./build.sh"',
+    'setup_cmd': 'bash -c "cd coq && ./build.sh %s"' % ' '.join('theories/Props/%s.vo' % p for p in sorted(CHECKS)),
     'hooks': {'guard': 'EERIMOQ_ASN1TOOLS_VERIF',
               'enable': 'no hooks in /repo are needed; ./check sets EERIMOQ_ASN1TOOLS_VERIF=1 for uniformity',
               'baseline_off_cmd': 'cd /repo && /venv/bin/python -m pytest -ra -q -p no:cacheprovider --timeout=900 '
